@@ -29,13 +29,22 @@ ASSUMPTIONS = [
     "fewer than 2^63 futures are held at once (window never straddles both halves after a re-base)",
 ]
 
-WRAP = "futures_ordered_bounded::OrderWrapper"
+WRAP = "futures_ordered_bounded::OrderWrapper"   # default; re-located by shape in run() (roles.order_wrapper_path)
 RE_ADD_ASSIGN = r"core::num::Wrapping<usize> as core::ops::AddAssign"
 RE_SUB_ASSIGN = r"core::num::Wrapping<usize> as core::ops::SubAssign"
 
 
+def _locate_wrap(ctx):
+    global WRAP
+    import roles as _roles
+    wp = _roles.order_wrapper_path(ctx.facts)
+    if wp is not None:
+        WRAP = wp
+
+
 def ordered_types(ctx):
     """Crate structs with two Wrapping<usize> fields and a BinaryHeap field."""
+    _locate_wrap(ctx)
     out = []
     for path, adt in ctx.facts.adts.items():
         if adt["kind"] != "struct":
@@ -473,6 +482,47 @@ def r4_3(ctx, R, otypes):
                     same = strip_refs(dst) == strip_refs(src) or _same_target(dst, src)
                     in_region = b.dominates(guard_tgt, bb)
                     targets.setdefault(kind, []).append((bb, c, same, in_region))
+            # stores made by a closure that poll_next hands to an internal-iteration helper of the crate
+            # (`queue.for_each_task_mut(|task| *task.project().index ^= C)`): the element is what that helper passes to
+            # the closure, classified inside the helper
+            for cb in ctx.facts.fn_bodies():
+                if cb.kind != "Closure" or cb.j.get("parent_fn") != b.path:
+                    continue
+                cfl = ctx.flow(cb)
+                site = None
+                for bb2, t2, fn2 in b.calls():
+                    hb = callee_body(ctx.facts, fn2)
+                    if hb is None or b.is_cleanup(bb2):
+                        continue
+                    for ai, a in enumerate(t2["args"]):
+                        ae = fl.operand_expr(a)
+                        if ae[0] == "agg" and ae[1] == "closure:" + cb.path:
+                            site = (bb2, hb, ai + 1)
+                if site is None:
+                    continue
+                bb2, hb, pk = site
+                hfl = ctx.flow(hb)
+                passed = []
+                for hbb, ht, hfn in hb.calls():
+                    if hfn and re.search(r"core::ops::(FnMut::call_mut|FnOnce::call_once|Fn::call)$", hfn["def"]) and not hb.is_cleanup(hbb):
+                        rcv = strip_refs(hfl.operand_expr(ht["args"][0]))
+                        if rcv == ("param", pk):
+                            tup = hfl.operand_expr(ht["args"][1])
+                            if tup[0] == "agg" and tup[1] == "tuple" and len(tup[2]) == 1:
+                                passed.append(tup[2][0])
+                for (sbb, i, st) in cfl.stores:
+                    if i == "term" or cb.is_cleanup(sbb):
+                        continue
+                    rv = st["rv"]
+                    if rv["k"] == "binop" and rv["op"] == "BitXor":
+                        dst = cfl.place_expr(st["place"])
+                        src = cfl.operand_expr(rv["a"])
+                        c_ = cfl.operand_expr(rv["b"])
+                        rooted = any(x == ("param", 2) for x in cfl.leaves(dst)) if hasattr(cfl, "leaves") else False
+                        kinds = {_entry_kind(ctx, hb, hfl, ("proj", pe_, (".index",)), h) for pe_ in passed} if passed and rooted else {"other:closure"}
+                        kind = kinds.pop() if len(kinds) == 1 else "other:closure-args-differ"
+                        same = strip_refs(dst) == strip_refs(src) or _same_target(dst, src)
+                        targets.setdefault(kind, []).append((bb2, c_, same, b.dominates(guard_tgt, bb2)))
             for kind, lst in targets.items():
                 for (bb, c, same, in_region) in lst:
                     ctx.ob("R4.3", b, "xor-store:%s" % kind, same and in_region and c[0] == "const" and c[2] == mask, b.loc(bb),
@@ -558,8 +608,10 @@ def r4_3b(ctx, R):
             ctx.ob("R4.3b", b, "iter_mut-covers-all-slots", ok, b.loc(rb), det)
     ctx.floor("R4.3b", "slot-map-iter_mut", n, 1)
     m = 0
+    # the iterator type(s) returned by the slot map's iter_mut, wherever they are declared
+    it_types = {b.locals[0].split("<")[0] for b in R.slotmap_methods if re.search(r"::iter_mut$", b.path)}
     for b in ctx.facts.fn_bodies():
-        if not re.search(r"^<slot_map::\w+<.*> as core::iter::Iterator>::next$", b.path):
+        if not any(re.search(r"^<%s<.*> as core::iter::Iterator>::next$" % re.escape(t_), b.path) for t_ in it_types):
             continue
         m += 1
         fl = ctx.flow(b)
@@ -701,6 +753,11 @@ def r4_6(ctx, R, otypes):
 
 def run(ctx):
     R = roles(ctx)
+    global WRAP
+    import roles as _roles
+    wp = _roles.order_wrapper_path(ctx.facts)
+    ctx.need(wp is not None, "WRAP: the order wrapper struct {data: T, index: usize} with an Ord impl")
+    WRAP = wp
     R.insert_fn
     ot = ordered_types(ctx)
     ctx.floor("R4.0", "ordered-collection-types", len(ot), 2)
